@@ -25,6 +25,11 @@ def build(tier, ctx):
     tasks = [{"name": nm, "defn": dsl.to_list(d), "k": 2,
               "pres": ["canonical", "reversed"], "mode": "c05"}
              for nm, d in defs]
+    for hs in (1, 2, 3):
+        for nm, d in pvcommon.extended_defs(0, staged=True, bunched=False,
+                                            stretched=None):
+            tasks.append({"name": nm, "defn": dsl.to_list(d), "k": 2,
+                          "pres": ["canonical"], "mode": "c05", "seed": hs})
     # the same small definitions under realistic event names
     for nm, d in pvcommon.scope_defs(ctx["repo"], 4 if tier == "quick" else 5,
                                      with_corpus=False):
@@ -52,6 +57,10 @@ def collect(tier, tasks, results, ctx):
     out = pvsweep.collect_generic(ID, tier, tasks, results, bounds, rule,
                                   LEVEL)
     return out
+
+
+def seed_of(task):
+    return task.get("seed", 0)
 
 
 def replay(rec, ctx):
